@@ -15,7 +15,7 @@ ALLOW_BV = True
 WIDTHS = [16, 24, 32, 40, 48, 56, 64]
 RULE = ("every bf_ref_*/bf_set_* function (96) with: every octet lane x octet values {00,01,7f,80,ff,random}, all single-bit "
         "patterns, all-ones/sign boundaries, float classes (f32/f64: +-0, subnormals, normals, infinities, quiet and signalling NaNs with "
-        "payloads), seeded random values, at alignment offsets 0..7 in exact-size heap blocks (ASan) with a pre-filled prefix; all 65536 "
+        "payloads), seeded random values, at offsets 0..7 and 4087..4097 from a page boundary (data across the end of a 4 KiB page) in exact-size heap blocks (ASan) with a pre-filled prefix; all 65536 "
         "values of the 16-bit functions and sampled (thorough: all 2^24) values of the 24-bit functions by in-process sweeps compared through "
         "a rolling hash; swaps and range predicates at boundaries +-1, single bits, random.  Three-way: C vs generated definitions vs "
         "arithmetic spec.  Non-trivial = every case (each exercises a codec on a non-empty value); distinct = distinct operation text.")
@@ -129,6 +129,11 @@ def gen_consts():
 GEN.append(gen_consts)
 
 
+def place(rnd):
+    """offset of the datum from a page boundary: mostly 0..7, one in four across or next to the end of a 4 KiB page"""
+    return rnd.randint(0, 7) if rnd.random() < 0.75 else rnd.randint(4096 - 9, 4096 + 1)
+
+
 def cases(tier, seed):
     rnd = random.Random(seed)
     cs = []
@@ -144,8 +149,8 @@ def cases(tier, seed):
                     vals = sorted(set(vals) | set(float_patterns(bits)))
                 ops = []
                 for v in vals:
-                    ops.append("bf.set bf_set_%s%d%s %0*x %d" % (kind, bits, order, W // 4, v, rnd.randint(0, 7)))
-                    ops.append("bf.ref bf_ref_%s%d%s %0*x %d" % (kind, bits, order, 2 * n, v & ((1 << bits) - 1), rnd.randint(0, 7)))
+                    ops.append("bf.set bf_set_%s%d%s %0*x %d" % (kind, bits, order, W // 4, v, place(rnd)))
+                    ops.append("bf.ref bf_ref_%s%d%s %0*x %d" % (kind, bits, order, 2 * n, v & ((1 << bits) - 1), place(rnd)))
                 for i in range(0, len(ops), 200):
                     cs.append(Case("%s%d%s-%d" % (kind, bits, order, i), ops[i:i + 200], ("codec", "%s%d" % (kind, bits))))
                 # sweeps
